@@ -1790,3 +1790,43 @@ add("pipeRescaleStructure", "Pipe", ["C19"], _IMR, "const", [],
             and _has(ast.unparse(func(t, "from_file")), "if abs(ratio - 1) < tol: return img",
                      "return zoom(img, ratio, order=3, prefilter=True, mode='reflect')")
             and _has(ast.unparse(func(t, "from_arrays")), "return [from_array(img, original_scale, tol).provide(scale) for img in imgs]")))
+
+
+# ==========================================================================================
+# C10  tasks share one alignment model and never write to it
+# ==========================================================================================
+def _no_self_stores(allowed):
+    def sel(t):
+        for cls in [n for n in ast.walk(t) if isinstance(n, ast.ClassDef)]:
+            for fn in [n for n in cls.body if isinstance(n, ast.FunctionDef)]:
+                if fn.name == "__init__" or (cls.name, fn.name) in allowed:
+                    continue
+                for n in ast.walk(fn):
+                    tg = n.targets if isinstance(n, ast.Assign) else \
+                        [n.target] if isinstance(n, (ast.AugAssign, ast.AnnAssign)) else []
+                    if isinstance(n, ast.Delete):
+                        tg = n.targets
+                    for t_ in tg:
+                        for e in ast.walk(t_):
+                            if isinstance(e, (ast.Attribute, ast.Subscript)) and isinstance(e.ctx, (ast.Store, ast.Del)) \
+                                    and ast.unparse(e).startswith("self."):
+                                raise SelectorMiss(f"{cls.name}.{fn.name} stores into {ast.unparse(e)}")
+                    if isinstance(n, ast.Call) and ast.unparse(n.func) in ("setattr", "object.__setattr__") \
+                            and n.args and ast.unparse(n.args[0]) == "self":
+                        raise SelectorMiss(f"{cls.name}.{fn.name} uses setattr(self, ...)")
+                    if isinstance(n, ast.Call) and isinstance(n.func, ast.Attribute) \
+                            and n.func.attr in ("append", "extend", "update", "setdefault", "pop", "clear", "insert", "remove") \
+                            and ast.unparse(n.func.value).startswith("self."):
+                        raise SelectorMiss(f"{cls.name}.{fn.name} mutates {ast.unparse(n.func.value)}")
+                    if isinstance(n, (ast.Global, ast.Nonlocal)):
+                        raise SelectorMiss(f"{cls.name}.{fn.name} declares global/nonlocal state")
+        return True
+    return sel
+
+
+add("modelMethodsDoNotStoreBase", "Sched", ["C10"], _ABASE, "const", [],
+    pattern(_no_self_stores({("TemplateMaskCache", "get"), ("TemplateMaskCache", "set")})))
+add("modelMethodsDoNotStoreConcrete", "Sched", ["C10"], "acryo/alignment/_concrete.py", "const", [],
+    pattern(_no_self_stores(set())))
+add("tiltModelsDoNotStore", "Sched", ["C10"], "acryo/tilt/_base.py", "const", [],
+    pattern(_no_self_stores(set())))
